@@ -25,6 +25,10 @@ def check(ctx):
   r3(ctx)
   r4(ctx)
   r5(ctx)
+  from . import c01
+  ctx.rule('C01.R3', 'shared with C01: nobody but the response walk takes frames off a call stack (the release closure of the balancer lives in its frame)')
+  c01.pop_discipline(ctx, 'C01.R3')
+  who_may_put(ctx)
   from . import c05
   ctx.rule('C05.R3', 'shared with C05: a leaving endpoint is forgotten by the heap AND by the idle/pending sets (an endpoint left behind in the idle set is picked by a later expansion: '
                      'a departed member gets a node and an open channel again, which no removal closes)')
@@ -252,3 +256,24 @@ def r5(ctx):
   for st in walk_no_nested(p.node):
     if isinstance(st, ast.If) and any(isinstance(x, ast.Assign) and any(isinstance(t, ast.Attribute) and t.attr == 'load' for t in x.targets) for x in st.body):
       ctx.ob('C04.R5', p, 'the clamp to Idle is guarded by load < Idle', U(st.test).replace(' ', '') == '%s.load<self.Idle' % p.params[1], 'clamp guard is %s' % U(st.test), why)
+
+
+def who_may_put(ctx):
+  """__Put is reached through the once-only release closure alone."""
+  prog = ctx.prog
+  f = prog.func(H, 'HeapBalancerSink._AsyncProcessRequestImpl')
+  why = ('the release of a member slot is idempotent only through the closure that tests and sets its once-flag: the closure stays on the call stack and runs when the call '
+         'completes (also when it is failed), so any other call of __Put for that request decrements the load a second time')
+  bad = []
+  for g in prog.all_funcs:
+    if g.module.rel != H:
+      continue
+    for c in ast.walk(g.node):
+      if isinstance(c, ast.Call) and U(c.func).endswith('__Put') and not U(c.func).endswith('_OnPut'):
+        inside_closure = g.parent is not None and g.parent.qualname.endswith('_AsyncProcessRequestImpl')
+        if not inside_closure:
+          # a direct call from the dispatch function itself (or anything else) bypasses the once-flag
+          nested_holder = [n for n in ast.walk(g.node) if isinstance(n, (ast.FunctionDef, ast.Lambda)) and n is not g.node and any(x is c for x in ast.walk(n))]
+          if not nested_holder:
+            bad.append('%s: %s' % (g.qualname, U(c)))
+  ctx.ob('C04.R2', f, '__Put is called by the once-only release closure only', not bad, '__Put is also called from %s' % bad, why)
